@@ -447,6 +447,9 @@ def check(ctx):
     with ctx.shared({"C02.R1": ("C01.R5", "the records validation reads are the records that were added: two records that differ in AS, max-length or "
                                 "source are different records to add and remove (otherwise a removal deletes a sibling and answers change)")}):
         C02.r1(ctx)
+    with ctx.shared({"C02.R4": ("C01.R6", "the shape the lookups rely on: node payloads move as (prefix, length, data) triples, and a removal pulls up "
+                                "the child with the shorter prefix, so that a node is never longer than the nodes below it")}):
+        C02.r4(ctx)
     ctx.not_decided("that the trie reaches a correct shape after arbitrary insert/remove orders (parents never longer than children, "
                     "every node on the path spelled by its prefix bits)")
     ctx.not_decided("the arithmetic inside lrtr_get_bits / lrtr_ipv6_get_bits and lrtr_ip_addr_is_zero / lrtr_ip_addr_equal")
